@@ -7,7 +7,7 @@ import gen
 import impl
 
 RULE = ("arc/line tissues (Voronoi, Moebius images, exact square/brick lattices), whole and connected sub-tissues, rotations "
-        "incl. within a fraction of a degree of axis alignment, 2..17 points per interface, both circle fits, ignore_four on/off; "
+        "a lattice mixing three- and four-fold junctions and a square lattice with ragged border (vertices that collect coefficients but get no equations), incl. within a fraction of a degree of axis alignment, 2..17 points per interface, both circle fits, ignore_four on/off; "
         "non-trivial = the matrix has at least one row pair; distinct = (tissue fingerprint, fit, ignore_four)")
 TRUSTED = ["hand-written model Model/ForceSys.v tied to fmatrix._build_matrix/get_vertex_equation/eid_from_vertex and "
            "edge.get_vector_from_vertex by exact (rational) correspondence; the fitted circle centre and the normalised "
@@ -266,6 +266,13 @@ def tissues(rng, tier):
         if len(spec["cells"]) < 3:
             continue
         yield spec, f"t{k}/kind{kind}"
+    # vertices that collect coefficient pairs and are then left without equations, followed by junctions that keep theirs:
+    # a lattice with four-fold junctions below and three-fold junctions above (assembled with and without ignore_four), and a square lattice
+    # with two corner cells taken away (the inner corners have three cells but only two internal interfaces)
+    yield gen.lattice_tissue(4, 3, "mixed", npts=int(rng.integers(1, 4)), rng=rng), "mixed-3-4-fold"
+    sq = gen.lattice_tissue(4, 4, "square", npts=int(rng.integers(1, 4)), rng=rng)
+    ids = [c[0] for c in sq["cells"]]
+    yield gen.sub_tissue(sq, ids[1:-1]), "ragged-square"
 
 
 def nested_function(fn, name, cells):
@@ -339,7 +346,10 @@ def run(res, tier, seed):
     fit_cases(res, rng, exprs, 12 if tier == "quick" else 120)
     for spec, label in tissues(rng, tier):
         for fit in ("dlite", "taubinSVD"):
-            check_case(res, spec, fit, bool(rng.integers(0, 2)), exprs, label, prebuild=float(rng.uniform(1.9, 2.5)) if rng.random() < 0.4 else None)
+            ig = bool(rng.integers(0, 2))
+            if label == "mixed-3-4-fold":
+                ig = fit == "dlite"          # once with, once without ignore_four
+            check_case(res, spec, fit, ig, exprs, label, prebuild=float(rng.uniform(1.9, 2.5)) if rng.random() < 0.4 else None)
     bools, outs = C.coq_eval_bools("C02", IMPORTS, [e for e, _ in exprs], chunk=4)
     for (e, rp), b in zip(exprs, bools):
         res.traces += 1
